@@ -9,9 +9,16 @@ P = {
     ],
     "rule": "exhaustive: all sequences of length 2 (quick) / 4 (thorough) over 7 operations on one bundle ID; seq: random sequences (quick 150 x 5..25 ops, thorough 3000) over {push bundle / same-ID variant / fragment of one "
             "or two fragmentations (overlapping, nested), update pending+properties+expiry, delete, expiry sweep, query id / "
-            "pending / knows / complete, close+reopen} on the real storage.Store, a full dump (records, loaded parts, part "
+            "pending / knows / complete, close+reopen} - every operation that names a record addressed by a drawn one of the IDs "
+            "denoting it (the scrubbed bundle ID or the full ID of one of its fragments; delete also through "
+            "routing.BundleDescriptor.Sync), same demanded effect whichever is used (keys *.by-fragment-id) - on the real storage.Store, "
+            "a full dump (records, loaded parts, part "
             "files) after every operation, compared with the extracted model and the reference map; bundles with exceeded "
-            "and with far-future lifetimes (never near now). crash: every crash point (push before insert / before update, "
+            "and with far-future lifetimes (never near now). hand: 48 (thorough 960) records of hand-built fragments that dtn7's own "
+            "Fragment() never emits - a lone fragment covering the whole payload (also of an empty payload), lone partial ones, "
+            "fragmentations at drawn cut points (uneven, 1-byte pieces, overlapping) in a drawn order, mixed with dtn7's own - "
+            "IsComplete asked after every arrival and judged against brute-force covering, then query / update / delete under "
+            "fragment IDs and the fragments arriving again; half of the random universes carry such fragments too. crash: every crash point (push before insert / before update, "
             "delete after the n-th part file / before the index delete, the same inside an expiry sweep, point not reached) "
             "in a killed child process, reopened by a real routing.Core (spray / epidemic / prophet / binary_spray) whose "
             "entry points (checkPendingBundles, DeleteExpired, Push of the same bundle or of a same-ID variant over the "
